@@ -21,6 +21,11 @@ def run(ctx):
     cs.append(dict(seed=ctx.seed + 4999, slots=4, events=1, prims=3, emax=30, dets=0, fluct=0, scale=20, order="none",
                    inflight=0, maxsteps=3000, secfactor=0.26, initcap=4096))
     tot, outs = coreloop.validate(ctx, cs, ["C16.", "C01.", "C02."], nshards=8)
+    # replay of design behaviours that hit the initializer capacity (errors at Gen and at End) on the real Stepper
+    rtot, rsamples = coreloop.replay(ctx, [("replay_cap2", dict(NSlots=2, InitCap=2, Charge=False))], 40 if q else 600,
+                                     ["C16.", "C01.", "C02."])
+    tot["replay"] = rtot
+    tot["errors"] += rtot["errors"]
     ctx.coverage.update({"evaluations": tot["runs"], "distinct_nontrivial": tot["errors"] + tot["failures"],
                          "rule": "each run = one (secondary capacity, initializer capacity, slots, layout) fault configuration of the "
                                  "real stepping loop; distinct_nontrivial = number of faults actually hit (capacity errors raised + "
